@@ -370,10 +370,10 @@ func sliceFlagEdge(fn *ssa.Function, b *ssa.BasicBlock) int {
 		if !ok || !isFlag(iff.Cond) {
 			continue
 		}
-		if id.Succs[0] == d || id.Succs[0].Dominates(d) {
+		if edgeOnly(id, 0, d) {
 			return 1
 		}
-		if id.Succs[1] == d || id.Succs[1].Dominates(d) {
+		if edgeOnly(id, 1, d) {
 			return -1
 		}
 	}
